@@ -173,6 +173,38 @@ func TestCheck(t *testing.T) {
 			},
 			pre:   func(w *world) { sk.Go("busy", func() { w.tgt.Add1("B", nil) }) },
 			burst: []kit.Step{S("add", "A"), S("remove", "A"), S("add", "A")}, pairs: [][2]string{{"A", "A"}}}),
+		// same, with bursts that end inactive: a piped Remove that arrives while
+		// the piped Add is still queued on the busy target must not be dropped
+		mk(def{name: "busy-target:burst2", bound: b(1, 2), schema: sc, names: names,
+			bind: func(w *world) error {
+				_, err := w.tgt.HandlersBindMaps(nil, map[string]am.HandlerFinal{"BState": func(e *am.Event) {
+					for i := 0; i < 4; i++ {
+						vsched.Yield("busy")
+					}
+				}})
+				if err != nil {
+					return err
+				}
+				_, err = pipes.Bind(w.src, w.tgt, "A", "", "")
+				return err
+			},
+			pre:   func(w *world) { sk.Go("busy", func() { w.tgt.Add1("B", nil) }) },
+			burst: []kit.Step{S("add", "A"), S("remove", "A")}, pairs: [][2]string{{"A", "A"}}}),
+		mk(def{name: "busy-target:burst4", bound: b(1, 2), schema: sc, names: names,
+			bind: func(w *world) error {
+				_, err := w.tgt.HandlersBindMaps(nil, map[string]am.HandlerFinal{"BState": func(e *am.Event) {
+					for i := 0; i < 4; i++ {
+						vsched.Yield("busy")
+					}
+				}})
+				if err != nil {
+					return err
+				}
+				_, err = pipes.Bind(w.src, w.tgt, "A", "", "")
+				return err
+			},
+			pre:   func(w *world) { sk.Go("busy", func() { w.tgt.Add1("B", nil) }) },
+			burst: []kit.Step{S("add", "A"), S("remove", "A"), S("add", "A"), S("remove", "A")}, pairs: [][2]string{{"A", "A"}}}),
 		mk(def{name: "bindany", bound: b(1, 2), schema: sc, names: names, any: true,
 			bind:  func(w *world) error { _, err := pipes.BindAny(w.src, w.tgt); return err },
 			burst: []kit.Step{S("add", "A"), S("add", "B"), S("remove", "A")}}),
